@@ -772,9 +772,13 @@ def _run_consist(case):
                 mech = "ksa-zero-residual-nan" if resid_DP == 0.0 else "ksa-update-not-finite"
             else:
                 mech = "xl-density-not-stationary-at-converged-density"
+            prev = [v for v in viol if v["clause"] == "consistency-" + what and v["mech"] == mech]
+            if prev:   # one violation per (clause, mechanism) and case; further variants are listed in it
+                prev[0]["detail"]["also_in_variants"].append(label)
+                continue
             viol.append({"clause": "consistency-" + what, "mech": mech,
-                         "detail": {"variant": label, "value": val, "max|D(P)-P|": resid_DP, "method": method,
-                                    "mols": case["mols"],
+                         "detail": {"variant": label, "also_in_variants": [], "value": val, "max|D(P)-P|": resid_DP,
+                                    "method": method, "mols": case["mols"],
                                     "species": np.asarray(S).tolist(), "coords": np.asarray(C).tolist()}})
     del torch
     return {"nontrivial": mon["consistency_calls_compared"] > 0, "violations": viol, "margins": mg.m, "monitors": mon,
@@ -1021,9 +1025,12 @@ def _run_dyn(case):
     std = {f: float(np.std(fam[f][0])) for f in fam}
     rms = {f: float(np.sqrt(np.mean((fam[f][0] - fam[f][0][0]) ** 2))) for f in fam}
     com = lambda x: x - (M[None, :, None] * x).sum(1, keepdims=True) / M.sum()
-    dist = {f: float(np.abs(com(fam[f][1]) - com(xb)).max()) for f in fam}
+    # distance to the BOMD trajectory: rms over atoms and over the common time grid (max norm kept as an observation)
+    dist = {f: float(np.sqrt(np.mean(np.sum((com(fam[f][1]) - com(xb)) ** 2, axis=-1)))) for f in fam}
+    dmax = {f: float(np.abs(com(fam[f][1]) - com(xb)).max()) for f in fam}
     E0 = {f: float(fam[f][0][0]) for f in fam}
-    detail = {"engine": engine, "k": k, "mol": case["mol"], "dt": dt0, "std": std, "rms_err": rms, "dist": dist}
+    detail = {"engine": engine, "k": k, "mol": case["mol"], "dt": dt0, "std": std, "rms_err": rms, "dist": dist,
+              "dist_max": dmax}
     # same initial condition => identical step-0 energy for every dt (it is the SCF energy + Ek)
     if mg.upd("e_step0_energy_equal", max(abs(E0[f] - E0[1]) for f in fam), 1e-8):
         viol.append({"clause": "dyn-initial-energy", "mech": "xl-initial-energy-depends-on-dt", "detail": detail})
@@ -1052,7 +1059,8 @@ def _run_dyn(case):
             "cells": ["e/%s/k%d/%s%s" % (engine, k, case["mol"], "/rank%d" % case["rank"] if case.get("rank") else "")],
             "obs": dict(detail, std_ratios=[std[1] / std[2], std[2] / std[4]],
                         rms_ratios=[rms[1] / rms[2], rms[2] / rms[4]],
-                        dist_ratios=[dist[1] / dist[2], dist[2] / dist[4]], bomd_std=float(np.std(Eb)))}
+                        dist_ratios=[dist[1] / dist[2], dist[2] / dist[4]],
+                        dist_max_ratios=[dmax[1] / dmax[2], dmax[2] / dmax[4]], bomd_std=float(np.std(Eb)))}
 
 
 def run_case(case):
